@@ -182,7 +182,8 @@ def run_isolated(sid, d, meta, checks, tier):
                 print('\n'.join(l[:400] for l in o.splitlines() if l.startswith('  C') or 'VIOLATION' in l or 'HARNESS' in l or 'error' in l)[-3000:])
     finally:
         shutil.rmtree(scr, ignore_errors=True)
-        sh('rm -f %s/replays/*.json' % ROOT)
+        if '--keep' not in sys.argv:
+            sh('rm -f %s/replays/*.json' % ROOT)
     meta.setdefault('checks', {}).update(out)
     json.dump(meta, open(os.path.join(d, 'meta.json'), 'w'), indent=1)
     return 0
